@@ -159,8 +159,11 @@ def run(ctx):
                  'the thread has a cycle (through bb%s->bb%s) that neither blocks in Select::ready nor consumes a message: busy loop' % (cyc or ('', '')), ready[0].loc())
         # both receivers registered with the selector
         regs = [c for c in b.calls() if c.callee and re.search(r"Select::<'a>::recv$", c.callee.best)]
-        regd = sorted((b.access_path(c.args[1]) or ['?'])[0] for c in regs)
-        rcv = sorted({(b.access_path(r.args[0]) or ['?'])[0] for r in recvs})
+        # (the receivers are parameters, or fields of one parameter that groups what the thread owns)
+        def rx_of(op):
+            return '.'.join(x for x in common.strip_refs(common.deep_path(b, op) or ['?']))
+        regd = sorted(rx_of(c.args[1]) for c in regs)
+        rcv = sorted({rx_of(r.args[0]) for r in recvs})
         R1.check(regd == rcv and len(rcv) == 2, cfg, TH, 'select-registers-both-receivers', 'Select must wait on exactly the receivers that are polled (registered %s, polled %s)' % (regd, rcv), b.loc())
         # R2
         for r in recvs:
@@ -230,9 +233,16 @@ def run(ctx):
         R4.check(cs == ['hot_reloading::HotReloader::make'], cfg, 'hot_reloading::HotReloader::start', 'callers={make}', 'callers: %s' % cs)
         if len(sp) == 1:
             sb = sp[0].body
-            cl = agg_stmts(sb, sp[0].args[1])
+            cl = [x for x in agg_stmts(sb, sp[0].args[1]) if x['rv'].get('closure')]
             ok = len(cl) == 1 and 'closure' in cl[0]['rv'] and all(o['k'] == 'move' and not o['place']['p'] for o in cl[0]['rv']['ops'])
             tys = sorted(o['place']['ty'] for o in cl[0]['rv']['ops']) if ok else []
+            # a private struct that groups the thread's inputs counts for what it contains
+            for t_ in list(tys):
+                a_ = F.adt(re.sub(r'<.*$', '', t_))
+                if a_ and a_['kind'] == 'struct' and a_['variants']:
+                    tys.remove(t_)
+                    tys += [f_['ty'] for f_ in a_['variants'][0]['fields']]
+            tys = sorted(tys)
             ok = ok and sum(1 for t in tys if t.startswith('crossbeam_channel::Receiver<')) == 2 and any('dyn source::Source' in t for t in tys)
             ok = ok and not any('Sender<hot_reloading::CacheMessage>' in t_ for t_ in tys)
             R4.check(ok, cfg, sb.path, 'thread-owns-receivers-and-source', 'the thread closure must own both receivers and the boxed source by move; captures %s' % tys, sp[0].loc())
